@@ -93,7 +93,9 @@ impl Pattern {
 
         let anchored_regex = "^".to_string() + &pattern + "$";
         let anchored_regex = Regex::new(anchored_regex.as_str(), opts.case_insensitive);
-        let prefix_regex = "^".to_string() + &pattern;
+        // the matched prefix must end at a path component boundary
+        let escaped_sep = escape(MAIN_SEPARATOR.to_string().as_str());
+        let prefix_regex = format!("^(?:{pattern})(?:{escaped_sep}|$)");
         let prefix_regex = Regex::new(prefix_regex.as_str(), opts.case_insensitive);
 
         match anchored_regex {
@@ -167,7 +169,8 @@ impl Pattern {
         self.anchored_regex.is_partial_match(path)
     }
 
-    /// Returns true if this pattern fully matches a prefix of the given path
+    /// Returns true if this pattern fully matches a prefix of the given path,
+    /// where the prefix consists of complete path components
     pub fn matches_prefix(&self, path: &str) -> bool {
         self.prefix_regex.is_match(path)
     }
